@@ -224,7 +224,45 @@ def gen_env(rng, batch, nprocs, same_seed=False):
         env["plans"][-1]["rules"].append({"id": "ro", "call": "open", "pat": "*.mmm", "nth": "*", "act": "rdonly"})
     # options of `run` that must not change what the program does or how it ends
     env["run_flags"] = rng.weighted([([], 8), (["--profile"], 1), (["--no-pb"], 1)])
+    if batch in ("benign", "hard"):
+        # crash and restart: one command of the case was started once before and killed at a planned call; what it left on disk
+        # survives and the command is started again.  Drawn from a stream of its own (a function of the first hash seed) so that
+        # every other choice of this generator is what it was before crashes existed
+        sub = core.Rng(core.derive(int(seeds[0][:16], 16), "crash"))
+        if sub.chance(1, 3):
+            stage = sub.weighted([("run", 3), ("compile", 3), ("execute", 2), ("transpile", 3)])
+            call, pat, hi = {"run": sub.weighted([(("write", "*.mmm", 14), 4), (("open", "*.mmm", 6), 2), (("read", "*.mmm", 8), 2), (("write", "<stdout>", 4), 1)]),
+                             "compile": sub.weighted([(("write", "*.mmm", 14), 4), (("open", "*.mmm", 6), 2), (("read", "*.ms", 4), 1)]),
+                             "execute": sub.weighted([(("read", "*.mmm", 8), 3), (("open", "*.mmm", 4), 1), (("write", "<stdout>", 4), 1)]),
+                             "transpile": sub.weighted([(("write", "*.mmm", 14), 4), (("read", "*.mmm", 8), 2), (("open", "*.mmm", 3), 2)])}[stage]
+            k = min(sub.range(1, hi), sub.range(1, hi))
+            rules = [{"id": "crash", "call": call, "pat": pat, "nth": str(k), "act": sub.choice(["kill", "killafter"])}]
+            if call == "write" and pat == "*.mmm" and sub.chance(1, 2):
+                rules = [{"id": "crasht", "call": "write", "pat": "*.mmm", "nth": str(k), "act": "short:%d" % sub.range(1, 7)},
+                         {"id": "crash", "call": "write", "pat": "*.mmm", "nth": str(k + 1), "act": "kill"}]
+            env["crash"] = {"stage": stage, "rules": rules}
     return env
+
+
+AUX = []
+
+
+def take_aux():
+    """The processes that were killed on purpose by the legs since the last call (crash-and-restart environments)."""
+    got = list(AUX)
+    del AUX[:]
+    return got
+
+
+def crash_first(env, stage, cwd, args, plan, **kw):
+    """If the environment says so, start this command once, kill it at the planned call, and leave what it wrote behind."""
+    crash = env.get("crash")
+    if not crash or crash["stage"] != stage:
+        return
+    a = core.run_cmd(cwd, args, plan={"seed": plan["seed"], "rules": plan["rules"] + crash["rules"]}, **kw)
+    a["aux"] = True
+    a["crashed"] = a["rc"] == 137
+    AUX.append(a)
 
 
 def spelled(env, cwd, ent):
@@ -291,6 +329,7 @@ def leg_run(files, entry, env, idx, dump=False):
     cwd, ent = os.path.join(world, os.path.dirname(entry)), os.path.basename(entry)
     ent = spelled(env, cwd, ent)
     flags = list(env.get("run_flags") or [])
+    crash_first(env, "run", cwd, ["run", ent, "-q"] + flags, env["plans"][idx], gc=env["gc"][idx], **inv(env))
     p = core.run_cmd(cwd, ["run", ent, "-q"] + flags, plan=env["plans"][idx], gc=env["gc"][idx], dump=dump, **inv(env))
     if "--profile" in flags:
         # the profile report follows the program's output after one empty line; it is not program output
@@ -312,9 +351,11 @@ def leg_compile_execute(files, entry, env, idx, dump=False):
         t = core.run_cmd(cwd, ["compile", ent, "--quick"], plan=tplan, **inv(env))
         t["aux"] = True
         procs.append(t)
+    crash_first(env, "compile", cwd, ["compile", ent, "--quick"], env["plans"][idx], **inv(env))
     c = core.run_cmd(cwd, ["compile", ent, "--quick"], plan=env["plans"][idx], **inv(env))
     procs.append(c)
     if c["rc"] == 0:
+        crash_first(env, "execute", cwd, ["execute", ent[:-3] + ".mmm"], env["plans"][idx + 1], gc=env["gc"][idx + 1], **inv(env))
         e = core.run_cmd(cwd, ["execute", ent[:-3] + ".mmm"], plan=env["plans"][idx + 1], gc=env["gc"][idx + 1], dump=dump, **inv(env))
         procs.append(e)
     return procs
@@ -330,6 +371,7 @@ def leg_transpile_execute(files, entry, env, idx, dump=False, shortcut=False):
             with open(os.path.join(cwd, rel), "wb") as f:
                 f.write(dirty_bytes(env["dirty"]["kind"], env["dirty"]["fill"], 400))
     procs = []
+    crash_first(env, "compile", cwd, ["compile", sstem + ".ms", "--output-format", "raw-text", "--quick"], env["plans"][idx], **inv(env))
     c = core.run_cmd(cwd, ["compile", sstem + ".ms", "--output-format", "raw-text", "--quick"], plan=env["plans"][idx], **inv(env))
     procs.append(c)
     if c["rc"] != 0:
@@ -346,9 +388,11 @@ def leg_transpile_execute(files, entry, env, idx, dump=False, shortcut=False):
                          gc=env["gc"][idx + 1], dump=dump, **inv(env))
         procs.append(e)
         return procs, text_form
+    crash_first(env, "transpile", cwd, ["transpile", sstem + ".transpiled.mmm"], env["plans"][idx + 1], **inv(env))
     t = core.run_cmd(cwd, ["transpile", sstem + ".transpiled.mmm"], plan=env["plans"][idx + 1], **inv(env))
     procs.append(t)
     if t["rc"] == 0:
+        crash_first(env, "execute", cwd, ["execute", sstem + ".mmm"], env["plans"][idx + 2], gc=env["gc"][idx + 2], **inv(env))
         e = core.run_cmd(cwd, ["execute", sstem + ".mmm"], plan=env["plans"][idx + 2], gc=env["gc"][idx + 2], dump=dump, **inv(env))
         procs.append(e)
     return procs, text_form
@@ -407,7 +451,7 @@ def shrink_env(case):
         c = copy.deepcopy(case)
         c["env"]["vars"] = {}
         yield c
-    for key in ("dirty", "torn"):
+    for key in ("dirty", "torn", "crash"):
         if env.get(key):
             c = copy.deepcopy(case)
             c["env"][key] = None
